@@ -12,7 +12,7 @@ from typing import Any, Dict, List, Optional, Sequence, Tuple
 import z3
 
 from .. import llsym, pysym
-from ..common import Inconclusive, Scratch, seed
+from ..common import Inconclusive, Scratch, run, seed
 from ..compile import CompileError
 from ..crt import CBuild, CMsg, native_decode, native_encode, pack_struct, unpack_struct
 from ..families import Case
@@ -321,3 +321,82 @@ def work(job: Tuple[Case, List[Cfg], Tuple[str, ...]]) -> Dict[str, Any]:
                 run_msg(case, cb, cm, cfg, res, ops, rng)
     res["exec_s"] = round(time.time() - t00, 3)
     return res
+
+
+def replay_c(payload: Dict[str, Any]) -> Tuple[bool, str]:
+    """Re-run a recorded C counterexample natively against the current /repo: the schema text is
+    re-parsed by the real compiler (names and types only -> my layout), generated C is built with
+    gcc and Encode/Decode run on the recorded values.  Returns (still_fails, description)."""
+    import os
+
+    from ..compile import compile_cli, load_plain_compiler, write_files
+    from ..crt import LIBC, clang_ir, native_decode, native_encode
+    from ..golden import ast_to_model
+    from ..llsym import Module
+
+    if any("import " in t for t in payload["files"].values()):
+        return True, "replay of schemas with imports is not automated: compile payload['files'] and run the recorded values by hand"
+    load_plain_compiler()
+    from bitproto.parser import parse
+
+    with Scratch() as sc:
+        write_files(payload["files"], sc.dir)
+        main = next(iter(payload["files"]))
+        model = ast_to_model(parse(sc.path(main)))
+        msgs = {"".join(ch): (m, ch) for m, ch in __import__("vlib.families", fromlist=["_msgs"])._msgs(model)}
+        if payload["message"] not in msgs:
+            return True, f"message {payload['message']} not found in the schema"
+        msg, chain = msgs[payload["message"]]
+        gen = sc.path("gen")
+        flags = ["-q"] + (["-O", "--endian", payload.get("endian", "both")] if payload.get("optimize") else [])
+        r = compile_cli(sc.dir, main, "c", gen, flags)
+        if r.returncode:
+            return True, f"compiler failed: {r.stderr[-200:]}"
+        stem = main.rsplit(".", 1)[0]
+        # layout constants through clang (x86-64), native run through gcc
+        fake = type("B", (), {})()
+        fake.main, fake.gen = stem, gen
+        fake.bytes_macro = {}
+        from ..crt import CBuild
+
+        ltu = CBuild.write_layout_tu(fake, [(msg, chain)])  # type: ignore
+        lout = sc.path("layout.ll")
+        clang_ir(ltu, lout, "O0", "x86_64", [gen, LIBC])
+        consts = {}
+        for g, (ty, init) in Module(lout).globals.items():
+            if g.startswith("@bpv_") and init:
+                consts[g[1:]] = init[1] if init[0] == "int" else 0
+        lay = layout(msg)
+        consts["bpv_bytes_0"] = lay.nbytes
+        cm = CMsg([], consts, 0, msg, chain)
+        big = "BP_BIG_ENDIAN" in payload.get("native_cfg", "") and not payload.get("optimize")
+        defs = ["-DBP_BIG_ENDIAN"] if "BP_BIG_ENDIAN" in payload.get("native_cfg", "") else []
+        so = sc.path("r.so")
+        g = run(["gcc", "-shared", "-fPIC", "-O2", "-w", "-I", gen, "-I", LIBC] + defs + [os.path.join(gen, stem + "_bp.c"), os.path.join(LIBC, "bitproto.c"), "-o", so])
+        if g.returncode:
+            return True, f"gcc failed: {g.stderr[-200:]}"
+        vals = {tuple(map(tuple, p)): v for p, v, _ in payload["values"]}
+        if payload["op"] in ("encode", "storage"):
+            got, guard_ok = native_encode(so, "Encode" + cm.name, pack_struct(cm, vals, little=not big, fill=0x5A), lay.nbytes)
+            want = spec_encode(lay, vals)
+            if got != want:
+                return True, f"Encode{cm.name} gives {got.hex()}, specified {want.hex()}"
+            return (not guard_ok), ("writes beyond BYTES_LENGTH" if not guard_ok else "holds on this input now")
+        raw, guard_ok = native_decode(so, "Decode" + cm.name, spec_encode(lay, vals), cm.sizeof)
+        gotv = unpack_struct(cm, raw, little=not big)
+        wrong = [(l.pname(), gotv[l.path], vals[l.path]) for l in lay.leaves() if gotv[l.path] != (vals[l.path] if l.kind != "bool" else int(bool(vals[l.path])))]
+        if wrong:
+            return True, f"Decode{cm.name} reads {wrong[:3]} (field, got, encoded)"
+        return (not guard_ok), ("writes outside the struct" if not guard_ok else "holds on this input now")
+
+
+def replay_main(path: str) -> int:
+    import json
+
+    p = json.load(open(path))
+    if p.get("kind") == "c" and "values" in p:
+        bad, why = replay_c(p)
+        print(("FAILS: " if bad else "passes: ") + why)
+        return 1 if bad else 0
+    print(json.dumps({k: p[k] for k in p if k != "files"}, indent=1)[:1200])
+    return 1
